@@ -231,12 +231,12 @@ class Edges(object):
     # ---- (A) scale, count, energy edges of one compound
     def edge_wavelengths(self, frags):
         """global grid + table points of the table-driven atoms (quick: both outside points and every
-        7th node/midpoint; thorough: all)."""
+        11th node/midpoint; thorough: all)."""
         pts = list(GLOBAL_WL)
         for sym, a in self.ck.table_atoms(frags):
             g = self.ck.table_grid(sym, a)
             outside, inside = g[:2], sorted(g[2:])
-            step = 1 if self.tier != "quick" else 7
+            step = 1 if self.tier != "quick" else 11
             pts += [w for w, r in outside] + [w for w, r in inside[3::step]]
         return sorted(set(pts))
 
@@ -502,19 +502,33 @@ class Edges(object):
                 d = dv if dk == "density" else self.data.compound_density(base, ("natural", dv))
                 bases[(dk, dv, w)] = (A, self.data.evaluate(base, d, w), bsrc)
         seen_structs = 0
+        from periodictable import formula as _formula
         for kind, var in self.variants(base):
-            try:
-                comp, src = self.build_variant(var)
-            except MachineryError:
-                raise
-            if src is None:
+            comp, src = self.build_variant(var)
+            is_string = src is None
+            if is_string:
                 src = repr(comp)
             seen_structs += 1
             acc.outcome("edge:" + kind)
-            for (dk, dv, w), (A, ref, bsrc) in bases.items():
+            parsed = None
+            for bi, ((dk, dv, w), (A, ref, bsrc)) in enumerate(bases.items()):
                 case = dict(kind="structure", frags=jf, dens=[dk, dv], wavelength=w, variant=var)
                 esrc = "%s, %s=%r, wavelength=%r" % (src, dk, dv, w)
-                st, B = self.call(comp, src, {dk: dv, "wavelength": w}, None)
+                arg = comp
+                if is_string and bi > 0:
+                    # the string goes through neutron_scattering itself in the first state; the other states
+                    # reuse one parse of it (formula(string) is what neutron_scattering does with a string)
+                    if parsed is None:
+                        try:
+                            parsed = _formula(comp)
+                        except Exception as e:
+                            acc.violation("raises:%s:%s" % (kind, cls), case, "a formula",
+                                          "%s: %s" % (type(e).__name__, e),
+                                          standalone="from periodictable import formula\nprint(formula(%r))\n" % comp)
+                            break
+                    arg = parsed
+                    esrc = "pt.formula(%s), %s=%r, wavelength=%r" % (src, dk, dv, w)
+                st, B = self.call(arg, src, {dk: dv, "wavelength": w}, None)
                 acc.states += 1
                 acc.nontrivial += 1
                 if st == "exc":
@@ -524,7 +538,7 @@ class Edges(object):
                 if self.invariants(B, case, cls, esrc):
                     self.relate(kind, ref, A, B, 1.0, 1.0, 1e-12, 1e-12, case, cls, [bsrc, esrc])
             # the '@' tag on the string form is the same density
-            if var["form"] == "string" and not var.get("wrap"):
+            if is_string and not var.get("wrap") and var["g"] == 1:
                 key = ("density", 2.33, 1.798)
                 if key in bases:
                     A, ref, bsrc = bases[key]
